@@ -157,8 +157,9 @@ def execute(plan: dict, scratch: str, replay: Optional[dict] = None) -> dict:
                 overlapped = True
                 sim.probe("gc_overlapped_commit")
             if rec["outcome"] == "raise":
-                V.append({"clause": "G.gc_raised", "msg": f"[{cfg}] collection raised {rec.get('exc')}: {(rec.get('msg') or '')[:200]}",
-                          "sig": f"G.gc_raised|{backend}|{rec.get('exc')}"})
+                # a collection that gives up next to a committing writer deletes nothing: safe under this property (that
+                # old orphans ARE removed is C05's statement, for collections that run alone)
+                sim.probe("gc_raised_next_to_writers")
         if in_scope:
             try:
                 st = w.state(deep=True, rows=True)
